@@ -39,8 +39,8 @@ static Outcome runCase(const KV& c)
     }
     o.signature  = std::string(kOpNames11[op]) + shape + "T" + std::to_string(threads) + c.getS("kernel_n", "") + c.getS("s_extrapolation", "");
     o.nontrivial = threads >= 2;
-    const char* root      = getenv("VERIF_BUILD_ROOT");
-    const std::string exe = std::string(root ? root : "/verif/build") + "/tsan/c11_tsan_driver";
+    const char* root      = getenv("VERIF_BUILD_TSAN");
+    const std::string exe = std::string(root ? root : "/verif/build/tsan") + "/c11_tsan_driver";
     const std::string cf = tmpBase() + ".case", lf = tmpBase() + ".log";
     c.save(cf);
     fflush(nullptr);
